@@ -462,7 +462,7 @@ async fn run_scenario(cluster: &mut Option<ActorRef<ClusterActor>>, keep: &mut V
     let bg = t[1] == "1";
     let fail = |e: String| (line.to_string(), format!("ERR:{}", e.replace([' ', '\t', '\n'], "_")));
     let dir = match tempfile::tempdir() { Ok(d) => d, Err(e) => return fail(e.to_string()) };
-    let db = match DatabaseBuilder::new().segment_size_bytes(8 * 1024 * 1024).total_buckets(4).bucket_ids_from_range(0..4).reader_threads(2).writer_threads(2).open(dir.path()) { Ok(d) => d, Err(e) => return fail(format!("open: {e}")) };
+    let db = match DatabaseBuilder::new().segment_size_bytes(8 * 1024 * 1024).total_buckets(4).bucket_ids_from_range(0..4).reader_threads(2).writer_threads(2).sync_interval(Duration::from_micros(200)).sync_idle_interval(Duration::from_micros(200)).min_sync_bytes(1).open(dir.path()) { Ok(d) => d, Err(e) => return fail(format!("open: {e}")) };
     let mut parts: Vec<Part> = (0..NP).map(|_| Part::default()).collect();
     for (p, txs) in layout.iter().enumerate() {
         for tx in txs { if let Err(e) = db_append(&db, &mut parts, p as u16, tx).await { return fail(e); } }
